@@ -188,6 +188,43 @@ def rule_r7(ctx):
         raise AnalysisBroken("nobody reads an aio's timeout any more (nni_aio_get_timeout)")
 
 
+# ---------------------------------------------------------------------------
+# R8: nni_aio_start leaves an absolute expiry where the caller put it (or earlier)
+
+def rule_r8(ctx):
+    r = ctx.rule("C07.R8", "T1", "the deadline a protocol sets with nni_aio_set_expire is the latest moment the operation may end: in "
+                 "nni_aio_start a store to a_expire that can be reached with a_use_expire set is made only on an edge that has "
+                 "established the new value to be earlier than the old one -- replaced by `now + timeout` otherwise, a receive "
+                 "with a long timeout outlives the survey's deadline and late responses are delivered", floor=1)
+    f = ctx.prog.need("nni_aio_start", "core/aio.c")
+    rel = {}
+    facts = G.edge_facts(f)
+    clear = {}
+    for bid, k, atom, val in facts:
+        if atom.get("k") == "mem" and atom.get("f") == "a_use_expire" and not val:
+            clear[bid] = k
+    n = 0
+    for t in f.assigns():
+        l = t.node["lhs"]
+        if l.get("k") != "mem" or l.get("f") != "a_expire":
+            continue
+        n += 1
+        if clear and G.dominated(f, (t.b, t.i), clear):
+            r.ob(f, "a_expire computed at line %s only when no absolute expiry was given" % t.line)
+            continue
+        rhs = show(f.expand(t.node["rhs"]))
+        earlier = G.rel_edges(f, lambda x: show(x) == rhs, lambda x: x.get("k") == "mem" and x.get("f") == "a_expire", "<")
+        earlier.update(G.rel_edges(f, lambda x: show(x) == rhs, lambda x: x.get("k") == "mem" and x.get("f") == "a_expire", "<="))
+        if earlier and G.dominated(f, (t.b, t.i), earlier):
+            r.ob(f, "a_expire replaced at line %s only by an earlier time" % t.line)
+        else:
+            ctx.fail(r, f, "absolute expiry replaced", t.line,
+                     "nni_aio_start stores %s into a_expire at line %s on a path on which a_use_expire can be set and which has not "
+                     "established that the new time is earlier: the deadline the caller gave is pushed back" % (rhs, t.line))
+    if n < 1:
+        raise AnalysisBroken("nni_aio_start no longer computes a_expire")
+
+
 def run(ctx):
     ctx.guard(rule_r1)
     ctx.guard(rule_r2)
@@ -203,3 +240,4 @@ def run(ctx):
             rr.id = rr.id.replace("C04.", "C07.S")
     ctx.guard(rule_r5)
     ctx.guard(rule_r7)
+    ctx.guard(rule_r8)
